@@ -873,6 +873,11 @@ def check_instrument(case, ctx):
             if gap < 1e-4:
                 ctx.skip("spectral-gap-band")
                 return
+            if within > 1e-14:
+                # eigenvalues of one model eigenspace that differ by rounding noise comparable to the library's
+                # grouping tolerance (atol=1e-13): whether they are one eigenspace is undecidable -> margin band
+                ctx.skip("degeneracy-spread-band")
+                return
             if any(np.real(np.trace(p)) > 1.5 and lam > 1e-6 for lam, p in groups):
                 degenerate = True
             hs = np.zeros((n, n), dtype=complex)
